@@ -9,6 +9,11 @@ from .repo import BUILTIN_EXC, FuncInfo
 from .state import Frame, Snap
 
 
+class AnextExpr(ast.expr):
+    """`await it.__anext__()` of an async generator under contract (synthetic node of a desugared `async for`)"""
+    _fields = ()
+
+
 def assigned_names(nodes):
     out = set()
     for n in nodes:
@@ -23,7 +28,7 @@ def assigned_names(nodes):
 def may_suspend(nodes):
     for n in nodes:
         for x in ast.walk(n):
-            if isinstance(x, (ast.Await, ast.YieldFrom, ast.Yield, ast.AsyncFor, ast.AsyncWith)):
+            if isinstance(x, (ast.Await, ast.YieldFrom, ast.Yield, ast.AsyncFor, ast.AsyncWith, AnextExpr)):
                 return True
     return False
 
@@ -82,6 +87,10 @@ class FlowMixin:
             sg = fresh("susp", z3.IntSort())
             g.assume(sg >= st0.susp + d)
             g.susp = sg
+            if any(not b.yields.eq(st0.yields) for b, _ in back):
+                yg = fresh("yields", z3.IntSort())
+                g.assume(yg >= st0.yields)
+                g.yields = yg
             # suspensions since the start of the current async-generator step: only `>= 0` survives the back edge
             dg = fresh("stepsusp", z3.IntSort())
             g.assume(dg >= 0)
@@ -348,7 +357,78 @@ class FlowMixin:
         return done
 
     def exec_async_for(self, stmt, st):
-        raise Unsupported("async for")
+        """async for target in SRC: body   with SRC an object whose __aiter__ is an async generator under contract
+        (or asyncstdlib.islice(SRC, n)): every iteration consumes one step of that generator BY ITS CONTRACT
+        (requires; at least step_suspends.min suspensions; step_ensures about the item), the loop ends when the
+        generator ends (its `ensures`) -- or, for islice, after n items without asking for another one."""
+        def with_src(v, s):
+            limit = None
+            if isinstance(v, IsliceVal):
+                v, limit = v.src, v.limit
+            if not (isinstance(v, Val) and v.ty[0] == "ref" and v.ty[1]):
+                raise Unsupported("async for over %r" % (v,))
+            m = self.find_repo_method(v.ty[1], "__aiter__")
+            c = self.reg.contracts.get(m.fqn) if m is not None else None
+            if m is None or not m.is_asyncgen or c is None or not c.step_ensures:
+                raise Unsupported("async for over %s: __aiter__ is not an async generator under contract" % v.ty[1])
+            stepc = self.step_contract(c)
+            uid = self.rel_line(s, stmt)
+            nname, lname = "_afor_n", "_afor_limit"
+            src = ("%s = 0\nwhile True:\n" % nname)
+            if limit is not None:
+                src += "    if %s >= %s:\n        break\n" % (nname, lname)
+            src += "    try:\n        __afor_item__ = __ANEXT__\n    except StopAsyncIteration:\n        break\n    %s += 1\n    pass\n" % nname
+            tree = ast.parse(src)
+            init, loop = tree.body
+            # item assignment -> the loop's own target; placeholder -> synthetic node
+            tr = [n for n in loop.body if isinstance(n, ast.Try)][0]
+            node = AnextExpr()
+            node.contract, node.info, node.recv = stepc, m, v
+            tr.body[0] = ast.Assign(targets=[stmt.target], value=node)
+            loop.body = [x for x in loop.body if not isinstance(x, ast.Pass)] + list(stmt.body)
+            loop.orelse = []
+            for n in ast.walk(loop):
+                if not hasattr(n, "lineno"):
+                    ast.copy_location(n, stmt)
+            ast.fix_missing_locations(loop)
+            loop._comp_of = stmt
+            if nname in s.frame.locals:
+                raise Unsupported("nested async for")
+            s.frame.locals[nname] = mk_int(0)
+            if limit is not None:
+                s.frame.locals[lname] = limit
+            outs = self.exec_loop(loop, s, kind="afor")
+            res = []
+            for o, s2 in outs:
+                s2.frame.locals.pop(nname, None)
+                s2.frame.locals.pop(lname, None)
+                if o.kind == "N" and stmt.orelse:
+                    res.extend(self.exec_block(stmt.orelse, s2))
+                else:
+                    res.append((o, s2))
+            return res
+        return self.ev(stmt.iter, st, with_src)
+
+    def step_contract(self, c):
+        """contract of ONE step (`__anext__`) of an async generator, derived from the generator's contract"""
+        from .dsl import Contract
+        cache = self.__dict__.setdefault("_step_contracts", {})
+        if c.fqn not in cache:
+            raises = dict(c.raises)
+            raises["StopAsyncIteration"] = dict(ensures=list(c.ensures))      # the generator ran to its end
+            sc = Contract(c.fqn + "#step", params=dict(c.params), returns=ANY, requires=list(c.requires),
+                          ensures=list(c.step_ensures), raises=raises,
+                          suspends=c.step_suspends if c.step_suspends is not None else (0, None),
+                          on_signal=list(c.on_signal), on_close=c.on_close, on_exit=list(c.on_exit),
+                          inv_scope=c.inv_scope, props=list(c.props),
+                          note="one step of the async generator, as specified by step_ensures/step_suspends of " + c.fqn)
+            cache[c.fqn] = sc
+        return cache[c.fqn]
+
+    def ev_AnextExpr(self, e, st, k):
+        c, info, recv = e.contract, e.info, e.recv
+        self.used_contracts.add(c.fqn.split("#")[0])
+        return self.apply_contract(c, info, {"self": recv}, st, k)
 
     # ================================================================== with
     def exec_with(self, stmt, st, is_async):
@@ -699,9 +779,13 @@ class FlowMixin:
         # objects allocated by this activity stay allocated/distinct: nothing to do (Ref terms persist)
         c = self.cur_contract
         # list lengths are non-negative in every reachable heap
-        self.stable_after_havoc(st, pre)
+        callee_cls = None
+        for prefix in ("call ", "sync interference "):
+            if reason.startswith(prefix):
+                callee_cls = reason[len(prefix):].split(".")[0]
+        self.stable_after_havoc(st, pre, sync=reason.startswith("sync interference"), callee_cls=callee_cls)
 
-    def stable_after_havoc(self, st, pre):
+    def stable_after_havoc(self, st, pre, sync=False, callee_cls=None):
         c = self.cur_contract
         # fields of objects created by this activity that nobody else writes (registry: owner_stable / monotone)
         for (o, oc) in st.new_objs:
@@ -741,7 +825,13 @@ class FlowMixin:
                         conds.append(wv if wty[0] == "bool" else wv != NULL)
                     st.assume(z3.Implies(z3.Or(*conds), nv == ov))
         # rely conditions (registry): quantified over all objects of the class
+        from .dsl import SUSPENSION_ONLY
         for (cn, fields, when, why, r_ens) in self.reg.relies:
+            if (cn, tuple(fields), when) in SUSPENSION_ONLY:
+                # a statement about what OTHER activities do: it does not cover synchronous foreign code, nor a callee that
+                # is a method of that very class (the owner's own code writes the field)
+                if sync or (callee_cls is not None and (callee_cls == cn or self.static_subclass_safe(callee_cls, cn))):
+                    continue
             x = z3.Const("rely!" + cn, RefS)
             xv = Val(REF(cn), x)
             fr = Frame(self.cur_func, None, spec=True)
@@ -775,6 +865,7 @@ class FlowMixin:
                 raise
             if new_v is None or old_v is None:
                 continue
+            self.assumptions_used.add("%s: `%s` keeps its value across the function's own suspensions (declared stable)" % (c.fqn, ex))
             st.assume(self.same_value(st, new_v, old_v))
 
     # ================================================================== opaque awaits (user code)
@@ -794,6 +885,9 @@ class FlowMixin:
         st.assume(self.loop_field(st, "time") >= old_time)
         st.last_susp = st.snap()
         st.inv_base = st.last_susp
+        # K-run: whenever code of this activity continues, the loop is running this activity
+        self.assumptions_used.add("kernel fact K-run: when an activity's code continues after an await, loop.activity is that activity")
+        st.assume(self.eval_clause("loop.activity is me", st))
         outs = []
         s1 = st.copy()
         r = fresh_val("result", ANY)
@@ -851,6 +945,7 @@ class FlowMixin:
         st.step_snap = st.last_susp
         st.step_time = self.loop_field(st, "time")
         st.step_no += 1
+        st.yields = st.yields + 1
         outs = []
         s1 = st.copy()
         s1.note("next")
@@ -876,6 +971,13 @@ class CMRecord:
         self.stmt = stmt
         self.item = item
         self.depth = depth
+
+
+class IsliceVal:
+    """asyncstdlib.islice(src, n): at most n items of src; after the n-th item no further item is requested"""
+    def __init__(self, src, limit):
+        self.src = src
+        self.limit = limit
 
 
 class ExitStackVal:
